@@ -122,11 +122,24 @@ def expected_builtin_totals(ir, executed_ids):
 def make_progress(desc, tmpdir=None):
     import uberjob.progress as up
 
-    recs = [recobserver.RecObserver(f"rec{i}") if (desc["seed"] + i) % 5 else recobserver.make_null_based_recorder(f"rec{i}") for i in range(desc.get("members", 1))]
+    def mk(i):
+        k_ = (desc["seed"] + i) % 5
+        if k_ == 0:
+            return recobserver.make_null_based_recorder(f"rec{i}")
+        if k_ == 1:
+            return recobserver.FalsyRec(f"rec{i}")  # an observer object that is falsy (while it has seen no failure)
+        return recobserver.RecObserver(f"rec{i}")
+
+    recs = [mk(i) for i in range(desc.get("members", 1))]
     members = [r.progress() for r in recs]
     if desc.get("bundled"):
-        members.insert(1 if len(members) > 1 else 0, up.Progress(lambda: up.HtmlProgressObserver(lambda b: None, initial_update_delay=0.0005, min_update_interval=0.0005, max_update_interval=0.001)))
-        members.append(up.Progress(lambda: up.ConsoleProgressObserver(initial_update_delay=0.0005, min_update_interval=0.0005, max_update_interval=0.001)))
+        # (update intervals of a few milliseconds: with yields injected at every instruction of the display code a display that re-renders every
+        # half millisecond holds its lock almost all the time and sixteen workers queue up behind it - the run crawls for minutes, which says
+        # nothing about uberjob)
+        fast = desc.get("perturb") != "instr"
+        lo, hi = (0.0005, 0.001) if fast else (0.004, 0.012)
+        members.insert(1 if len(members) > 1 else 0, up.Progress(lambda: up.HtmlProgressObserver(lambda b: None, initial_update_delay=lo, min_update_interval=lo, max_update_interval=hi)))
+        members.append(up.Progress(lambda: up.ConsoleProgressObserver(initial_update_delay=lo, min_update_interval=lo, max_update_interval=hi)))
     if len(members) == 1:
         return recs, members[0]
     rnd = desc["seed"] % 3
